@@ -5,16 +5,16 @@ from engine.chain import chain_obligations
 from props import lemmas as LM
 
 LEMMAS = {
-    'C04': [(['onshell'], [('3+1 form of g', LM.L_3p1), ('inverse', LM.L_inverse), ('determinants', LM.L_dets),
+    'C04': [(['onshell', 'onshell_vac'], [('3+1 form of g', LM.L_3p1), ('inverse', LM.L_inverse), ('determinants', LM.L_dets),
                            ('Riemann symmetries 4D', LM.L_riemann4), ('Riemann symmetries 3D', LM.L_riemann3),
                            ('constraints / Einstein equation', LM.L_constraints)], {})],
     'C05': [(['onshell'], [('covariant derivative', LM.L_covd), ('BSSNOK split', LM.L_bssn_split),
                            ('Riemann symmetries 3D', LM.L_riemann3), ('conformal', LM.L_conformal)], {})],
-    'C06': [(['onshell'], [('constraints / Einstein equation', LM.L_constraints)], {})],
+    'C06': [(['onshell', 'onshell_vac'], [('constraints / Einstein equation', LM.L_constraints)], {})],
     'C09': [(['fluid', 'fluid_rho0zero', 'fluid_atrest'], [('perfect fluid', LM.L_fluid)], {}),
             (['freeT'], [('projections of a supplied T', LM.L_Tproj)], {})],
-    'C10': [(['onshell'], [('Weyl tensor', LM.L_weyl), ('electric/magnetic parts', LM.L_EB),
-                           ('quasi-Kinnersley triad', LM.L_tetrad_qk)], {}),
+    'C10': [(['onshell', 'onshell_vac'], [('Weyl tensor', LM.L_weyl), ('electric/magnetic parts', LM.L_EB)], {}),
+            (['onshell'], [('quasi-Kinnersley triad', LM.L_tetrad_qk)], {}),
             (['onshell_fluidtetrad'], [('fluid tetrad', LM.L_tetrad_fluid)], {'numeric': True})],
     'C19': [(['onshell'], [('Eulerian kinematics', LM.L_kinematics)], {})],
 }
@@ -26,7 +26,7 @@ FUNCS = {
                'st_Gamma_udd4', 'st_Riemann_down4', 'st_Riemann_uddd4', 'st_Riemann_uudd4', 'st_Ricci_down4',
                'st_Ricci_down3', 'st_RicciS', 'Einsteindown4', 'Kretschmann'],
         helpers=['s_covd', 's_to_st', 'trace3', 'trace4'],
-        scens=['onshell'], thorough_scens=['onshell', 'onshell_comp'],
+        scens=['onshell', 'onshell_vac'], thorough_scens=['onshell', 'onshell_vac', 'onshell_comp'],
         chain=['gdown4', 'gup4', 'gdet', 'st_Gamma_udd4', 'st_Riemann_down4', 'st_Riemann_uddd4',
                'st_Riemann_uudd4', 'st_Ricci_down4', 'st_RicciS', 'Einsteindown4', 'Kretschmann']),
     'C05': dict(
@@ -51,7 +51,7 @@ FUNCS = {
                'Momentumx_norm', 'Momentumy_norm', 'Momentumz_norm', 'Momentumdownx_norm', 'Momentumdowny_norm',
                'Momentumdownz_norm'],
         helpers=['Lie_beta', 's_covd', 'tracefree3', 'trace3'],
-        scens=['onshell'], thorough_scens=['onshell', 'onshell_comp'],
+        scens=['onshell', 'onshell_vac'], thorough_scens=['onshell', 'onshell_vac', 'onshell_comp'],
         chain=['Hamiltonian', 'Momentumup3', 'Momentumdown3', 'dtKtrace', 'dtphi_bssnok', 'dtgammaup3',
                'dtgammadown3_bssnok', 'dtAdown3_bssnok', 'dts_Gamma_bssnok', 'rho_n_fromHam', 'fluxup3_n_fromMom']),
     'C09': dict(
@@ -74,9 +74,9 @@ FUNCS = {
         helpers=['levicivita_down3', 'levicivita_down4', 'levicivita_symbol_down3', 'levicivita_symbol_down4',
                  's_to_st', 's_covd', 'tracefree3', 'norm3', 'norm4', 'vector_inner_product3',
                  'vector_inner_product4', 'null_vector_base'],
-        scens=['onshell', 'onshell_fluidtetrad'], thorough_scens=['onshell', 'onshell_fluidtetrad', 'onshell_comp'],
+        scens=['onshell', 'onshell_vac', 'onshell_fluidtetrad'], thorough_scens=['onshell', 'onshell_vac', 'onshell_fluidtetrad', 'onshell_comp'],
         chain=['st_Weyl_down4', 'eweyl_n_down3', 'bweyl_n_down3', 'eweyl_u_down4', 'bweyl_u_down4'],
-        chain_scens=['onshell']),
+        chain_scens=['onshell', 'onshell_vac']),
     'C19': dict(
         funcs=['dtconserved', 'st_covd_udown4', 'accelerationdown4', 'accelerationup4', 's_covd_udown4',
                'thetadown4', 'theta', 'sheardown4', 'shear2', 'omegadown4', 'omega2', 'uup4', 'udown4',
